@@ -355,10 +355,25 @@ func (m *Model) Apply(c *APICall, closeOverlap bool) ApplyResult {
 			return okRes()
 		}
 		if m.Closed {
-			if len(c.List) != 0 {
-				return bad("WatchList after Close returned %q, want nil", c.List)
+			if len(c.List) == 0 {
+				return okRes()
 			}
-			return okRes()
+			// A WatchList that was already running when Close was called may
+			// still report the table as it is when it gets the lock (records
+			// handled after the close mark keep changing it).
+			if closeOverlap {
+				var cur []string
+				for _, w := range m.W {
+					if !w.Recurse || w.Root {
+						cur = append(cur, w.Spelling)
+					}
+				}
+				sort.Strings(cur)
+				if strings.Join(cur, "\x00") == strings.Join(c.List, "\x00") {
+					return ApplyResult{OK: true, Relax: "watchlist-overlapping-close"}
+				}
+			}
+			return bad("WatchList after Close returned %q, want nil", c.List)
 		}
 		var want, all []string
 		for _, w := range m.W {
